@@ -55,6 +55,11 @@ def showLit (n : Node) : String :=
   | .ok v => s!"ok {showLitVal v}"
   | .error e => s!"err {lerrName e}"
 
+def f64Bits : FV → String
+  | .nan _ => "nan"
+  | .inf s => if s then "-inf" else "inf"
+  | .fin x => canonRF x
+
 def handleLiteral (op : String) : Option (P String) :=
   match op with
   | "lit" => some do
@@ -82,6 +87,16 @@ def handleLiteral (op : String) : Option (P String) :=
         match roundLit C n with
         | .litErr er => pure s!"err {lerrName er}"
         | .res r => pure (showRes r)
+  | "litrepr" => some do      -- str(float) of a positive finite binary64 given as c exp
+      let c ← pNat; let e ← pInt
+      pure s!"ok {String.ofList (reprFloat (.fin ⟨false, e, c⟩))}"
+  | "litf64" => some do       -- float(<python literal>)
+      let s ← pSpelling
+      match pyNumber s with
+      | .ok (.float ip fp ex) => pure s!"ok float {f64Bits (floatValue ip fp ex)}"
+      | .ok (.int n) => pure s!"ok int {n}"
+      | .ok .imag => pure "ok imag"
+      | .error er => pure s!"err {lerrName er}"
   | _ => none
 
 end Fpy.Drv
